@@ -2087,6 +2087,7 @@ func (ls *LState) Resume(th *LState, fn *LFunction, args ...LValue) (ResumeState
 		}
 		return ResumeError, newApiErrorS(ApiErrorRun, "too many arguments to resume"), nil
 	}
+	th.wrapped = false // this resume gets the status in front of the values, also for a thread made by coroutine.wrap
 	th.Parent = ls
 	ls.G.CurrentThread = th
 	if !isstarted {
